@@ -74,9 +74,9 @@ for pid,(lvl,tech,ref,text,note) in sorted(C.items()):
 m={"version":1,"setup_cmd":"./run setup",
  "hooks":{"guard":"verif","enable":"go build -tags verif (./run builds the harness module with `replace go.etcd.io/bbolt => /repo` and the tag on)",
    "baseline_off_cmd":"cd /repo && go test -mod=mod -vet=off -count=1 -timeout 25m ./...","source_commits":hook_commits,"add_only":True},
- "engines":[{"name":"vcheck","path":"/verif/harness","serves_properties":sorted(C),"kind_free_text":"hand-written implementation-level model checker: explicit-state BFS over API programs (hx), worker-process pool (par), reference model (refmodel), independent file-format decoder (boltfmt)"}],
+ "engines":[{"name":"vcheck","path":"/verif/harness","serves_properties":sorted(C),"kind_free_text":"hand-written implementation-level model checker: explicit-state BFS over API programs (hx), stateless DFS over schedules / choices with deviation bounding under a controlled scheduler (mc, vsync, vtime; instrumentation overlay generated from the current tree by vrewrite), crash-image and I/O-fault enumeration (apix), worker-process pool (par), reference model (refmodel), independent file-format decoder and mutator (boltfmt)"}],
  "checks":checks,
- "notes":"Work in progress: properties are being added one by one; see DESIGN.md.",
+ "notes":"All 20 properties are claimed and decided by bounded exhaustive exploration of the real code (DESIGN.md: sections 4 and 9 per property, 10 = which check catches which seeded change). Known findings F5, F6: known_findings.json. Every quick and every thorough tier has been run to its end on the unchanged tree (exit 0).",
  "not_applicable":[{"property_id":p,"reason":"check not built yet (work in progress, see DESIGN.md section 8)"} for p in props if p not in C]}
 json.dump(m,open('/verif/MANIFEST.json','w'),indent=1)
 import jsonschema
